@@ -146,16 +146,77 @@ def translate_initialize(fn):
             "  (fun st => let '(messages, devices, encoder) := st in DOk (messages, devices)).\n")
 
 
+# ---------------------------------------------------------------- create_can_signals
+def translate_create_can_signals(fn):
+    """The loop of create_can_signals: one signal record per piece (name, start bit, length, byte order, signedness, the type names,
+    the multiplexing options) and the running maximum of ceil(end / 8).  Statement shapes are fixed; the keyword arguments of CanSignal
+    are translated one by one."""
+    U = ast.unparse
+    args = [a.arg for a in fn.args.args]
+    body = strip_doc(fn.body)
+    if len(args) != 1 or fn.decorator_list or len(body) != 4:
+        raise Untranslatable("create_can_signals")
+    enc = args[0]
+    a, b, loop, ret = body
+    if [U(a), U(b)] != ["signals = []", "max_dlc = 0"] or U(ret) != "return (signals, max_dlc)":
+        raise Untranslatable("create_can_signals: state / return")
+    if not (isinstance(loop, ast.For) and not loop.orelse and isinstance(loop.target, ast.Name) and U(loop.iter) == enc and len(loop.body) == 5):
+        raise Untranslatable(f"create_can_signals: {U(loop)[:80]}")
+    p = loop.target.id
+    s1, s2, s3, s4, s5 = loop.body
+    if U(s1) != f"multiplexer_signal = {p}.extended_data.get('mux_signal')":
+        raise Untranslatable(f"create_can_signals: {U(s1)}")
+    if U(s2) != f"multiplexer_ids = list(range({p}.extended_data.get('mux_count', 0)))":
+        raise Untranslatable(f"create_can_signals: {U(s2)}")
+    if U(s3) != f"type = {p}.composite_type.unwrap_or({p}.type.name)":
+        raise Untranslatable(f"create_can_signals: {U(s3)}")
+    if not (isinstance(s4, ast.Expr) and isinstance(s4.value, ast.Call) and U(s4.value.func) == "signals.append" and len(s4.value.args) == 1
+            and isinstance(s4.value.args[0], ast.Call) and U(s4.value.args[0].func) == "CanSignal" and not s4.value.args[0].args):
+        raise Untranslatable(f"create_can_signals: {U(s4)[:80]}")
+    kw = {k.arg: U(k.value) for k in s4.value.args[0].keywords}
+    want = {
+        "name": (f"{p}.name.replace('::', '_')", f"dbc_name {p}"),
+        "start_bit": (f"{p}.bitstart", f"pstart {p}"),
+        "data_type": ("type", "type_"),
+        "scalar_type": (f"{p}.type.name", f"piece_type_name {p}"),
+        "bit_length": (f"{p}.bitlength", f"plen {p}"),
+        "byte_order": (f"'big_endian' if {p}.extended_data.get('endianness', 'little') == 'big' else 'little_endian'",
+                       f"(if ext_str_is {p} \"endianness\"%string \"big\"%string then \"big_endian\"%string else \"little_endian\"%string)"),
+        "signed": (f"is_signed({p})", f"py_is_signed (piece_type_name {p})"),
+        "is_multiplexer": ("bool(multiplexer_signal)", "truthy_ostr multiplexer_signal"),
+        "multiplexer_ids": ("multiplexer_ids if multiplexer_signal else None", "(if truthy_ostr multiplexer_signal then Some multiplexer_ids else None)"),
+        "multiplexer_signal": ("multiplexer_signal", "multiplexer_signal"),
+    }
+    if sorted(kw) != sorted(want):
+        raise Untranslatable(f"CanSignal keywords {sorted(kw)}")
+    for k, (src, _) in want.items():
+        if kw[k] != src:
+            raise Untranslatable(f"CanSignal {k}={kw[k]}")
+    if U(s5) != f"max_dlc = max(max_dlc, ceil(({p}.bitstart + {p}.bitlength) / 8))":
+        raise Untranslatable(f"create_can_signals: {U(s5)}")
+    rec = ("{| cs_name := " + want["name"][1] + "; cs_start_bit := " + want["start_bit"][1] + "; cs_bit_length := " + want["bit_length"][1]
+           + "; cs_data_type := " + want["data_type"][1] + "; cs_scalar_type := " + want["scalar_type"][1] + "; cs_byte_order := " + want["byte_order"][1]
+           + "; cs_signed := " + want["signed"][1] + "; cs_is_multiplexer := " + want["is_multiplexer"][1] + "; cs_multiplexer_ids := " + want["multiplexer_ids"][1]
+           + "; cs_multiplexer_signal := " + want["multiplexer_signal"][1] + " |}")
+    return ("Definition py_create_can_signals (" + enc + " : list piece) : list csignal * Z :=\n"
+            "  fold_left (fun (acc : list csignal * Z) " + p + " => let '(signals, max_dlc) := acc in\n"
+            f"      let multiplexer_signal := ext_str {p} \"mux_signal\"%string in\n"
+            f"      let multiplexer_ids := zrange (match ext_int {p} \"mux_count\"%string with Some n => n | None => 0%Z end) in\n"
+            f"      let type_ := piece_type_name {p} in     (* composite_type is Nothing() for every piece PackedEncoder._generate_signal makes *)\n"
+            f"      (signals ++ [{rec}], Z.max max_dlc (ceil8 (pstart {p} + plen {p})%Z))) {enc} ([], 0%Z).\n")
+
+
 def translate_repo(repo):
     tree = ast.parse(open(os.path.join(repo, "plugins", "fcp_can_c", "fcp_can_c", "can_c_writer.py")).read())
-    return "\n".join(["(* GENERATED by harness/py2coq_canc.py from plugins/fcp_can_c/fcp_can_c/can_c_writer.py (ceil_to_power_of_2, is_signed, map_messages_to_devices, initialize_can_data) on every run; do not edit. *)",
+    return "\n".join(["(* GENERATED by harness/py2coq_canc.py from plugins/fcp_can_c/fcp_can_c/can_c_writer.py (ceil_to_power_of_2, is_signed, map_messages_to_devices, initialize_can_data, create_can_signals) on every run; do not edit. *)",
                       "From Coq Require Import String ZArith List Bool.",
                       "From FcpV Require Import Schema.Types Layout.Packed Py.BufferLib Dbc.DbcModel Dbc.DbcLib CanC.CWriterLib.",
                       "Import ListNotations.", "",
                       translate_ceil(find_def(tree.body, "ceil_to_power_of_2")),
                       translate_is_signed(find_def(tree.body, "is_signed")),
                       translate_map_messages(find_def(tree.body, "map_messages_to_devices")),
-                      translate_initialize(find_def(tree.body, "initialize_can_data"))])
+                      translate_initialize(find_def(tree.body, "initialize_can_data")),
+                      translate_create_can_signals(find_def(tree.body, "create_can_signals"))])
 
 
 if __name__ == "__main__":
